@@ -295,11 +295,16 @@ def le_bytes(v, n):
     return [(v >> (8 * i)) & 0xff for i in range(n)]
 
 
-def serpent_keys(key, leaves=SerpentStd):
-    "key: 1..32 bytes (little-endian integer); short keys are padded with a 1 bit then zeros to 256 bits"
-    K = le_int(key)
-    if len(key) < 32:
-        K = K | (1 << (8 * len(key)))
+def serpent_keys(key, leaves=SerpentStd, nbits=None):
+    """key: 1..32 bytes (little-endian integer), or an integer together with its bit length nbits (any 1..256);
+    short keys are padded with a 1 bit then zeros to 256 bits"""
+    if nbits is None:
+        K = le_int(key)
+        nbits = 8 * len(key)
+    else:
+        K = key
+    if nbits < 256:
+        K = K | (1 << nbits)
     w = [(K >> (32 * i)) & M32 for i in range(8)]
     for i in range(132):
         w.append(_rotl(w[-8] ^ w[-5] ^ w[-3] ^ w[-1] ^ PHI ^ i, 11, 32))
@@ -311,8 +316,8 @@ def serpent_keys(key, leaves=SerpentStd):
     return keys
 
 
-def serpent_enc(key, blk, leaves=SerpentStd):
-    k = serpent_keys(key, leaves)
+def serpent_enc(key, blk, leaves=SerpentStd, nbits=None):
+    k = serpent_keys(key, leaves, nbits)
     B = le_int(blk)
     for i in range(31):
         B = serpent_L(leaves.S(i % 8, B ^ k[i]))
@@ -320,8 +325,8 @@ def serpent_enc(key, blk, leaves=SerpentStd):
     return le_bytes(B, 16)
 
 
-def serpent_dec(key, blk, leaves=SerpentStd):
-    k = serpent_keys(key, leaves)
+def serpent_dec(key, blk, leaves=SerpentStd, nbits=None):
+    k = serpent_keys(key, leaves, nbits)
     B = le_int(blk)
     B = leaves.Si(7, B ^ k[32]) ^ k[31]
     for i in range(30, -1, -1):
